@@ -85,8 +85,10 @@ func c18Configs() []c18Cfg {
 				{parquet.PageBufferSize(48), parquet.BloomFilters(parquet.SplitBlockFilter(10, "ID"), parquet.SplitBlockFilter(10, "Secret")), parquet.MaxRowsPerRowGroup(10)},
 				// several row groups of compressed pages
 				{parquet.PageBufferSize(48), parquet.Compression(&snappy.Codec{}), parquet.MaxRowsPerRowGroup(7)},
+				// bloom filters written after the row groups
+				{parquet.PageBufferSize(48), parquet.BloomFilters(parquet.SplitBlockFilter(10, "ID"), parquet.SplitBlockFilter(10, "Secret")), parquet.MaxRowsPerRowGroup(10), parquet.DeferBloomFiltersWithBuffers(parquet.NewBufferPool())},
 			} {
-				c := c18Cfg{encFooter: ef, colKey: ck, aadPrefix: vi == 1, opts: variant, bloom: vi == 2}
+				c := c18Cfg{encFooter: ef, colKey: ck, aadPrefix: vi == 1, opts: variant, bloom: vi == 2 || vi == 4}
 				c.desc = fmt.Sprintf("footer=%s,colkey=%v,variant=%d", map[bool]string{true: "encrypted", false: "plaintext-signed"}[ef], ck, vi)
 				out = append(out, c)
 			}
